@@ -28,7 +28,11 @@ def deps_of(ref, i):
     fp = ref.flat[i]
     return ([fp.sel] if fp.sel is not None else []) + list(fp.hard) + list(fp.soft) + list(getattr(fp, "rdeps", []))
 
+_DIST = {}
+
 def gen(rng, tier, dist):
+    global _DIST
+    _DIST = dist
     n = 300 if tier == "quick" else 4000
     out = list(sc.macro_cases())
     dist["macro-made metadata blocks"] = len(out)
@@ -123,6 +127,10 @@ def canon(case, line):
         # the model driver evaluated `declared a (apropos_of_tree root)` for this application and it does
         # not hold (hypothesis of C13_perm_invariant / C12's sorted pipeline): shown as a disagreement
         return line[:200]
+    if " cond=" in line:
+        # the model driver's evaluation of wf_app / full_conditions / ranked for this case (C12.count_cond)
+        from props import C12 as _c12
+        _c12.count_cond(line, _DIST)
     r = parse_out(line)
     if r is None:
         return line
@@ -132,6 +140,7 @@ def canon(case, line):
                                               for p in g) for g in r[1])
 
 def parse_out(line):
+    line = re.sub(r" cond=\S+$", "", line)
     m = re.match(r"n=(\d+) (.*)$", line)
     if not m:
         return None
@@ -165,6 +174,12 @@ def spec_check(case, impl):
     for a, b in edges:
         refs.setdefault(b, []).append(a)
     perms = [[([] if pm == "-" else [int(x) for x in pm.split(".")]) for pm in g.split("/")] for g in f[4].split(";")]
+    # every group and every permutation the case asks for has a result
+    if len(groups) != len(perms):
+        return "crash: %d groups of permutations asked for, %d in the output" % (len(perms), len(groups))
+    for gi, g in enumerate(groups):
+        if len(g) != len(perms[gi]):
+            return "crash: group %d has %d permutations, the output %d" % (gi, len(perms[gi]), len(g))
     for gi, g in enumerate(groups):
         if any(p is None for p in g):
             return "crash: unreadable group " + impl[:200]
@@ -222,5 +237,8 @@ LEVEL_TEXT = ("The sort as coded is proved correct for ALL inputs: on acyclic (r
               "changes neither the state nor the count (C13_perm_invariant: wf_app, metadata declares the dependencies - decidable, "
               "C13_declared_computed, evaluated in the tie -, acyclic edges); C13_edges_complete, C13_edges_complete_self (the self: port of every "
               "directory above a line: rSelf(.., rEnabledBy(x))), C13_same_edges full at model level; an entry naming a port inside an enumerated "
-              "sub-tree resolves below the line's own expanded address (resolve_entry).")
+              "sub-tree resolves below the line's own expanded address (resolve_entry).  Stage 6: references THROUGH ports without a line give edges "
+              "(C13_edges_complete_through, the recursive call of scan_deps); permutations of a file give the same REPORTED value "
+              "(C13_perm_invariant_reported: dispatch_printed's return value, not only orders of equal length); wf_app, full_conditions and ranked "
+              "are evaluated in decidable form on every generated file (C13_ranked_computed, C12_*_computed) and counted into input_distribution.")
 LEVEL_NOTE = "apropos (C18) and the metadata lookup (C17) enter the model as a function argument; the application semantics are C12's abstract application"
